@@ -212,7 +212,7 @@ def US.kill (u : US) (why : String) : US := { u with dead := some why }
 
 /-- expand + parse + evaluate the condition of a `#if` / `#elif` line -/
 def evalCondLine (cfg : Cfg) (fuel : Nat) (u : US) (toks : List Tok) : US × CR :=
-  match expandLine cfg.vaCommas fuel u.pp toks with
+  match expandLine ⟨cfg.vaCommas, cfg.definedBare⟩ fuel u.pp toks with
   | .ok (etoks, pp') =>
     (match parseCondOcca etoks with
      | .expr e => ({ u with pp := pp' }, evalCR cfg.shortCircuit (some e))
@@ -240,7 +240,7 @@ def processLine (cfg : Cfg) (fuel : Nat) (u : US) (l : SrcLine) : US :=
   | .undef n => if ign then u else
       { u with pp := { u.pp with table := u.pp.table.filter (fun x => x.name != n) } }
   | .text toks => if ign then u else
-      (match expandLine cfg.vaCommas fuel u.pp toks with
+      (match expandLine ⟨cfg.vaCommas, cfg.definedBare⟩ fuel u.pp toks with
        | .ok (o, pp') =>
          let o := o.filter (fun t => !t.isNl)
          { u with pp := pp', out := if o.isEmpty then u.out else o :: u.out }
